@@ -353,7 +353,7 @@ is_trivial() const {
   }
 
   // Finally, the class must be default-constructible.
-  return is_default_constructible(V_public);
+  return is_default_constructible();
 }
 
 /**
@@ -440,6 +440,9 @@ is_constructible(const CPPType *given_type) const {
   // Does the type match the copy constructor or move constructor?
   CPPType *base_type = ((CPPType *)given_type)->remove_reference();
   if (is_equivalent(*base_type->remove_cv())) {
+    if (is_abstract()) {
+      return false;
+    }
     const CPPReferenceType *ref_type = given_type->as_reference_type();
     if (ref_type == nullptr ||
         ref_type->_value_category == CPPReferenceType::VC_rvalue) {
@@ -495,6 +498,9 @@ is_constructible(const CPPType *given_type) const {
  */
 bool CPPStructType::
 is_default_constructible() const {
+  if (is_abstract()) {
+    return false;
+  }
   return is_default_constructible(V_public);
 }
 
@@ -503,6 +509,9 @@ is_default_constructible() const {
  */
 bool CPPStructType::
 is_copy_constructible() const {
+  if (is_abstract()) {
+    return false;
+  }
   return is_copy_constructible(V_public);
 }
 
@@ -526,14 +535,12 @@ is_destructible() const {
 }
 
 /**
- * Returns true if the type is default-constructible.
+ * Returns true if the type is default-constructible, without checking whether
+ * the class is abstract (an abstract class can still be constructed as the
+ * base sub-object of a derived class).
  */
 bool CPPStructType::
 is_default_constructible(CPPVisibility min_vis) const {
-  if (is_abstract()) {
-    return false;
-  }
-
   CPPInstance *constructor = get_default_constructor();
   if (constructor != nullptr) {
     // It has a default constructor.
@@ -592,14 +599,11 @@ is_default_constructible(CPPVisibility min_vis) const {
 }
 
 /**
- * Returns true if the type is copy-constructible.
+ * Returns true if the type is copy-constructible, without checking whether
+ * the class is abstract.
  */
 bool CPPStructType::
 is_copy_constructible(CPPVisibility min_vis) const {
-  if (is_abstract()) {
-    return false;
-  }
-
   CPPInstance *constructor = get_copy_constructor();
   if (constructor != nullptr) {
     // It has a copy constructor.
@@ -692,6 +696,9 @@ is_move_constructible(CPPVisibility min_vis) const {
     return true;
   }
 
+  if (min_vis == V_public && is_abstract()) {
+    return false;
+  }
   return is_copy_constructible(min_vis);
 }
 
